@@ -60,6 +60,8 @@ def _frac_multiset(t):
             n, dens = None, []
             for c in ch:
                 cn, cd = _frac_multiset(c)
+                if _is_zero(cn):
+                    return z3.RealVal(0), []      # 0 * x = 0 for every real x (z3's total division included)
                 n = cn if n is None else n * cn
                 dens += cd
             return n, dens
@@ -74,6 +76,11 @@ def _frac_multiset(t):
             n, d = _frac_multiset(ch[0])
             return -n, d
     return t, []
+
+
+def _is_zero(t):
+    t = z3.simplify(t)
+    return z3.is_rational_value(t) and t.numerator_as_long() == 0
 
 
 def _prod(xs):
